@@ -82,7 +82,8 @@ class GLoop(rwfrag.GSem):
         body = self.stmts(0, self.rng.choice([1, 2, 3]))
         if not any(l.startswith("while") for l in body):
             body += self.loop(0, "i")
-        return "a = 1\nb = 2\nc = 3\n" + "\n".join(body) + "\n"
+        # 20%: a module docstring (kept as written, first, silent)
+        return ("'d'\n" if self.rng.random() < 0.2 else "") + "a = 1\nb = 2\nc = 3\n" + "\n".join(body) + "\n"
 
 
 def expr_atoms_fix(g):
